@@ -16,11 +16,19 @@ pub mod h2x {
       relation r5(i64);
       relation r6(i64, i64, Option<i64>);
       relation r7(i64, i64);
-      r7(v0, std::cmp::min(std::cmp::max(v1.clone(), 0), 6)) <-- r7(v0, v1), r0(v100, v101) if (v100.clone() == v0.clone()) if (v101.clone() == v0.clone()), if (v0.clone() <= 5);
-      r7(v1, std::cmp::min((v1.clone() + 2), 6)) <-- r5(v0), r2(v1), if (v1.clone() <= 3);
-      r7(v3, std::cmp::min((v0.clone() + 1), 6)) <-- r4(v0), r0(v1, v2), if (v2.clone() <= 5), r0(v3, v102) if (v102.clone() == v2.clone()), if (v2.clone() <= 5);
-      r7(v0, std::cmp::min(std::cmp::min(v0.clone(), 1), 6)) <-- r0(v0, v1);
-      r5(v0) <-- r0(v0, v1);
+      r7(v1, v1) <-- r2(v0), r0(v100, v1) if (v100.clone() == v0.clone()), if (v1.clone() <= 5);
+      r7(v0, std::cmp::min((v0.clone() + v0.clone()), 6)) <-- r0(v0, v1);
+      r7(v1, v1) <-- r0(v0, v1);
+      r7(v0, std::cmp::min(std::cmp::min(v0.clone(), 4), 6)) <-- r7(v103, v104) if (v103.clone() == 0) if (v104.clone() == 3), r3(v0, v2, v101), r7(v105, v102) if (v105.clone() == v101.clone()), if (v102.clone() < 0), agg () = not() in r0(v2.clone(), v2.clone());
+      r7(v0, std::cmp::min(std::cmp::min(v0.clone(), 4), 6)) <-- r7(v106, v107) if (v106.clone() == 0) if (v107.clone() == 3), r6(v0, v2, v108) if let Some(v101) = v108.clone(), r5(v109), agg () = not() in r0(v2.clone(), v2.clone());
+      r7(v0, std::cmp::min(std::cmp::min(v0.clone(), 4), 6)) <-- r7(v110, v111) if (v110.clone() == 0) if (v111.clone() == 3), r1(v0, v112) if let Some(v3) = v112.clone();
+      r6(v8, v3, v2) <-- r6(v0, v1, v2), r3(v3, v5, v113), r7(v117, v114) if (v117.clone() == v113.clone()), if (v114.clone() < 0), agg () = not() in r0(v5.clone(), v5.clone()), r3(v7, v8, v115), r7(v118, v116) if (v118.clone() == v115.clone()), if (v116.clone() < 0), agg () = not() in r0(v8.clone(), v8.clone());
+      r6(v8, v3, v2) <-- r6(v0, v1, v2), r3(v3, v5, v113), r7(v119, v114) if (v119.clone() == v113.clone()), if (v114.clone() < 0), agg () = not() in r0(v5.clone(), v5.clone()), r6(v7, v8, v120) if let Some(v115) = v120.clone(), r5(v121), agg () = not() in r0(v8.clone(), v8.clone());
+      r6(v8, v3, v2) <-- r6(v0, v1, v2), r6(v3, v5, v122) if let Some(v113) = v122.clone(), r5(v123), agg () = not() in r0(v5.clone(), v5.clone()), r3(v7, v8, v115), r7(v124, v116) if (v124.clone() == v115.clone()), if (v116.clone() < 0), agg () = not() in r0(v8.clone(), v8.clone());
+      r6(v8, v3, v2) <-- r6(v0, v1, v2), r6(v3, v5, v125) if let Some(v113) = v125.clone(), r5(v126), agg () = not() in r0(v5.clone(), v5.clone()), r6(v7, v8, v127) if let Some(v115) = v127.clone(), r5(v128), agg () = not() in r0(v8.clone(), v8.clone());
+      r6(v8, v3, v2) <-- r6(v0, v1, v2), r6(v129, v3, v130) if (v129.clone() == 1) if let Some(v6) = v130.clone(), r3(v7, v8, v115), r7(v131, v116) if (v131.clone() == v115.clone()), if (v116.clone() < 0), agg () = not() in r0(v8.clone(), v8.clone());
+      r6(v8, v3, v2) <-- r6(v0, v1, v2), r6(v132, v3, v133) if (v132.clone() == 1) if let Some(v6) = v133.clone(), r6(v7, v8, v134) if let Some(v115) = v134.clone(), r5(v135), agg () = not() in r0(v8.clone(), v8.clone());
+      r4(v0) <-- r1(v0, v136) if let Some(v1) = v136.clone();
    }
    pub struct Inst { p: Prog, pool: Option<ascent::rayon::ThreadPool> }
    pub fn make(pool: Option<usize>) -> Box<dyn Driver> {
@@ -63,21 +71,36 @@ pub mod h6x {
       relation r1(i64, Option<i64>);
       relation r2(i64);
       relation r3(i64, i64, i64);
-      relation r4(i64, Option<i64>);
-      relation r5(i64, i64, i64);
+      relation r4(i64);
+      relation r5(i64, i64);
       relation r6(i64, i64);
-      r6(v0, 3) <-- r3(v100, v0, v101) if (v101.clone() == v0.clone()), if (v0.clone() == 3);
-      r5(v0, (v0.clone() + 1), v0) <-- r1(v0, v1), r3(v102, v2, v103) if (v103.clone() == v2.clone()), if (v2.clone() == 3), if (v0.clone() < 5);
-      r5(v0, v0, std::cmp::min((v2.clone() + 1), 6)) <-- r4(v0, v106) if let Some(v1) = v106.clone(), r4(v2, v107) if let Some(v104) = v107.clone(), if (v104.clone() < v0.clone()), r4(v108, v109) if (v108.clone() == v2.clone()) if let Some(v105) = v109.clone(), if (v105.clone() < v2.clone());
-      r6(v0, v0) <-- r4(v0, v106) if let Some(v1) = v106.clone(), r4(v2, v107) if let Some(v104) = v107.clone(), if (v104.clone() < v0.clone()), r4(v108, v109) if (v108.clone() == v2.clone()) if let Some(v105) = v109.clone(), if (v105.clone() < v2.clone());
-      r6(v2, v0) <-- r4(v0, v106) if let Some(v1) = v106.clone(), r4(v2, v107) if let Some(v104) = v107.clone(), if (v104.clone() < v0.clone()), r4(v108, v109) if (v108.clone() == v2.clone()) if let Some(v105) = v109.clone(), if (v105.clone() < v2.clone());
-      r5(v1, v1, std::cmp::min(std::cmp::min(v1.clone(), 2), 6)) <-- r2(v0), r4(v1, v116) if let Some(v110) = v116.clone(), r6(v117, v111), if (v111.clone() < v110.clone()), r3(v115, v114, v113), if (v114.clone() == 3), if (v1.clone() < 5);
-      r6(v1, v1) <-- r2(v0), r4(v1, v116) if let Some(v110) = v116.clone(), r6(v117, v111), if (v111.clone() < v110.clone()), r3(v115, v114, v113), if (v114.clone() == 3), if (v1.clone() < 5);
-      r5(v1, v1, std::cmp::min(std::cmp::min(v1.clone(), 2), 6)) <-- r2(v0), r3(v1, v118, v110) if (v118.clone() == std::cmp::max(v0.clone(), 1)), if let Some(v112) = Some(std::cmp::max(v0.clone(), 1)), r3(v115, v114, v113), if (v114.clone() == 3), if (v1.clone() < 5);
-      r6(v1, v1) <-- r2(v0), r3(v1, v118, v110) if (v118.clone() == std::cmp::max(v0.clone(), 1)), if let Some(v112) = Some(std::cmp::max(v0.clone(), 1)), r3(v115, v114, v113), if (v114.clone() == 3), if (v1.clone() < 5);
-      r5(v1, v1, std::cmp::min(std::cmp::min(v1.clone(), 2), 6)) <-- r2(v0), r4(v1, v119) if (v119.clone() == None::<i64>);
-      r6(v1, v1) <-- r2(v0), r4(v1, v119) if (v119.clone() == None::<i64>);
-      r4(v1, None::<i64>) <-- r1(v0, v120) if let Some(v1) = v120.clone();
+      relation r7(i64, i64);
+      r6(1, std::cmp::min(std::cmp::min(v4.clone(), 1), 6)) <-- r3(v0, v102, v1) if (v102.clone() == v0.clone()), r5(v2, v103), r3(v100, v104, v105) if (v105.clone() == std::cmp::max(v2.clone(), 2)), if (v2.clone() <= v100.clone()), r5(v4, v106), r3(v101, v107, v108) if (v108.clone() == std::cmp::max(v4.clone(), 2)), if (v4.clone() <= v101.clone());
+      r6(std::cmp::min(std::cmp::min(v4.clone(), 1), 6), 2) <-- r3(v0, v102, v1) if (v102.clone() == v0.clone()), r5(v2, v103), r3(v100, v104, v105) if (v105.clone() == std::cmp::max(v2.clone(), 2)), if (v2.clone() <= v100.clone()), r5(v4, v106), r3(v101, v107, v108) if (v108.clone() == std::cmp::max(v4.clone(), 2)), if (v4.clone() <= v101.clone());
+      r6(1, std::cmp::min(std::cmp::min(v4.clone(), 1), 6)) <-- r3(v0, v109, v1) if (v109.clone() == v0.clone()), r5(v2, v110) if (v110.clone() == std::cmp::max(v0.clone(), 1)), r5(v4, v111), r3(v101, v112, v113) if (v113.clone() == std::cmp::max(v4.clone(), 2)), if (v4.clone() <= v101.clone());
+      r6(std::cmp::min(std::cmp::min(v4.clone(), 1), 6), 2) <-- r3(v0, v109, v1) if (v109.clone() == v0.clone()), r5(v2, v110) if (v110.clone() == std::cmp::max(v0.clone(), 1)), r5(v4, v111), r3(v101, v112, v113) if (v113.clone() == std::cmp::max(v4.clone(), 2)), if (v4.clone() <= v101.clone());
+      r5(2, v3) <-- r6(v0, v1), r5(v2, v116), r3(v114, v117, v118) if (v118.clone() == std::cmp::max(v2.clone(), 2)), if (v2.clone() <= v114.clone()), r5(v3, v119), r3(v115, v120, v121) if (v121.clone() == std::cmp::max(v3.clone(), 2)), if (v3.clone() <= v115.clone());
+      r5(3, std::cmp::min(std::cmp::min(v3.clone(), 2), 6)) <-- r6(v0, v1), r5(v2, v116), r3(v114, v117, v118) if (v118.clone() == std::cmp::max(v2.clone(), 2)), if (v2.clone() <= v114.clone()), r5(v3, v119), r3(v115, v120, v121) if (v121.clone() == std::cmp::max(v3.clone(), 2)), if (v3.clone() <= v115.clone());
+      r6(1, (std::cmp::min(std::cmp::min(v3.clone(), 2), 6) + 0)) <-- r6(v0, v1), r5(v2, v116), r3(v114, v117, v118) if (v118.clone() == std::cmp::max(v2.clone(), 2)), if (v2.clone() <= v114.clone()), r5(v3, v119), r3(v115, v120, v121) if (v121.clone() == std::cmp::max(v3.clone(), 2)), if (v3.clone() <= v115.clone());
+      r6((std::cmp::min(std::cmp::min(v3.clone(), 2), 6) + 0), 2) <-- r6(v0, v1), r5(v2, v116), r3(v114, v117, v118) if (v118.clone() == std::cmp::max(v2.clone(), 2)), if (v2.clone() <= v114.clone()), r5(v3, v119), r3(v115, v120, v121) if (v121.clone() == std::cmp::max(v3.clone(), 2)), if (v3.clone() <= v115.clone());
+      r6(1, v2) <-- r6(v0, v1), r5(v2, v116), r3(v114, v117, v118) if (v118.clone() == std::cmp::max(v2.clone(), 2)), if (v2.clone() <= v114.clone()), r5(v3, v119), r3(v115, v120, v121) if (v121.clone() == std::cmp::max(v3.clone(), 2)), if (v3.clone() <= v115.clone());
+      r7(v0, v1) <-- r6(v0, v122), r2(v1), r6(v123, v124) if (v123.clone() == v1.clone()) if (v124.clone() == (v1.clone() + 2)), r2(v2), r6(v125, v126) if (v125.clone() == v2.clone()) if (v126.clone() == (v2.clone() + 2));
+      r5(2, v2) <-- r7(v0, v131) if (v131.clone() == 3), r3(v127, v132, v1) if (v132.clone() == v0.clone()), r5(v128, v129), if (v1.clone() == 4), r2(v2);
+      r5(3, std::cmp::min(std::cmp::max(v2.clone(), 3), 6)) <-- r7(v0, v131) if (v131.clone() == 3), r3(v127, v132, v1) if (v132.clone() == v0.clone()), r5(v128, v129), if (v1.clone() == 4), r2(v2);
+      r6(1, (std::cmp::min(std::cmp::max(v2.clone(), 3), 6) + 0)) <-- r7(v0, v131) if (v131.clone() == 3), r3(v127, v132, v1) if (v132.clone() == v0.clone()), r5(v128, v129), if (v1.clone() == 4), r2(v2);
+      r6((std::cmp::min(std::cmp::max(v2.clone(), 3), 6) + 0), 2) <-- r7(v0, v131) if (v131.clone() == 3), r3(v127, v132, v1) if (v132.clone() == v0.clone()), r5(v128, v129), if (v1.clone() == 4), r2(v2);
+      r5(2, v2) <-- r7(v0, v133) if (v133.clone() == 3), r3(v127, v1, v134) if (v134.clone() == v0.clone()), r7(v135, v130), if (v1.clone() == 4), r2(v2);
+      r5(3, std::cmp::min(std::cmp::max(v2.clone(), 3), 6)) <-- r7(v0, v133) if (v133.clone() == 3), r3(v127, v1, v134) if (v134.clone() == v0.clone()), r7(v135, v130), if (v1.clone() == 4), r2(v2);
+      r6(1, (std::cmp::min(std::cmp::max(v2.clone(), 3), 6) + 0)) <-- r7(v0, v133) if (v133.clone() == 3), r3(v127, v1, v134) if (v134.clone() == v0.clone()), r7(v135, v130), if (v1.clone() == 4), r2(v2);
+      r6((std::cmp::min(std::cmp::max(v2.clone(), 3), 6) + 0), 2) <-- r7(v0, v133) if (v133.clone() == 3), r3(v127, v1, v134) if (v134.clone() == v0.clone()), r7(v135, v130), if (v1.clone() == 4), r2(v2);
+      r5(2, v2) <-- r3(v0, v137, v1) if (v137.clone() == v0.clone()) if (v1.clone() <= 1), r5(v2, v138), r3(v136, v139, v140) if (v140.clone() == std::cmp::max(v2.clone(), 2)), if (v2.clone() <= v136.clone());
+      r5(3, std::cmp::min((v1.clone() + v1.clone()), 6)) <-- r3(v0, v137, v1) if (v137.clone() == v0.clone()) if (v1.clone() <= 1), r5(v2, v138), r3(v136, v139, v140) if (v140.clone() == std::cmp::max(v2.clone(), 2)), if (v2.clone() <= v136.clone());
+      r6(1, (std::cmp::min((v1.clone() + v1.clone()), 6) + 0)) <-- r3(v0, v137, v1) if (v137.clone() == v0.clone()) if (v1.clone() <= 1), r5(v2, v138), r3(v136, v139, v140) if (v140.clone() == std::cmp::max(v2.clone(), 2)), if (v2.clone() <= v136.clone());
+      r6((std::cmp::min((v1.clone() + v1.clone()), 6) + 0), 2) <-- r3(v0, v137, v1) if (v137.clone() == v0.clone()) if (v1.clone() <= 1), r5(v2, v138), r3(v136, v139, v140) if (v140.clone() == std::cmp::max(v2.clone(), 2)), if (v2.clone() <= v136.clone());
+      r6(v2, v0) <-- r3(v0, v137, v1) if (v137.clone() == v0.clone()) if (v1.clone() <= 1), r5(v2, v138), r3(v136, v139, v140) if (v140.clone() == std::cmp::max(v2.clone(), 2)), if (v2.clone() <= v136.clone());
+      r4(v0) <-- r1(v0, v141) if (v141.clone() == None::<i64>);
+      r6(1, 3);
+      r6(3, 2);
    }
    pub struct Inst { p: Prog, pool: Option<ascent::rayon::ThreadPool> }
    pub fn make(pool: Option<usize>) -> Box<dyn Driver> {
@@ -92,9 +115,10 @@ pub mod h6x {
          1 => { let v: Vec<(i64,Option<i64>,)> = parse_rows(rows)?; if append { self.p.r1.extend(v) } else { self.p.r1 = v } },
          2 => { let v: Vec<(i64,)> = parse_rows(rows)?; if append { self.p.r2.extend(v) } else { self.p.r2 = v } },
          3 => { let v: Vec<(i64,i64,i64,)> = parse_rows(rows)?; if append { self.p.r3.extend(v) } else { self.p.r3 = v } },
-         4 => { let v: Vec<(i64,Option<i64>,)> = parse_rows(rows)?; if append { self.p.r4.extend(v) } else { self.p.r4 = v } },
-         5 => { let v: Vec<(i64,i64,i64,)> = parse_rows(rows)?; if append { self.p.r5.extend(v) } else { self.p.r5 = v } },
+         4 => { let v: Vec<(i64,)> = parse_rows(rows)?; if append { self.p.r4.extend(v) } else { self.p.r4 = v } },
+         5 => { let v: Vec<(i64,i64,)> = parse_rows(rows)?; if append { self.p.r5.extend(v) } else { self.p.r5 = v } },
          6 => { let v: Vec<(i64,i64,)> = parse_rows(rows)?; if append { self.p.r6.extend(v) } else { self.p.r6 = v } },
+         7 => { let v: Vec<(i64,i64,)> = parse_rows(rows)?; if append { self.p.r7.extend(v) } else { self.p.r7 = v } },
             _ => return None,
          }
          Some(())
@@ -102,7 +126,7 @@ pub mod h6x {
       fn run(&mut self) { match &self.pool { Some(pl) => { let p = &mut self.p; pl.install(|| p.run()) }, None => self.p.run() } }
       fn run_here(&mut self) { self.p.run() }
       fn run_timeout(&mut self, k: usize) -> Option<bool> { let _ = k; None }
-      fn dump(&self) -> String { vec![dump_rel(0, self.p.r0.iter().map(Row::render).collect()), dump_rel(1, self.p.r1.iter().map(Row::render).collect()), dump_rel(2, self.p.r2.iter().map(Row::render).collect()), dump_rel(3, self.p.r3.iter().map(Row::render).collect()), dump_rel(4, self.p.r4.iter().map(Row::render).collect()), dump_rel(5, self.p.r5.iter().map(Row::render).collect()), dump_rel(6, self.p.r6.iter().map(Row::render).collect())].join(" | ") }
+      fn dump(&self) -> String { vec![dump_rel(0, self.p.r0.iter().map(Row::render).collect()), dump_rel(1, self.p.r1.iter().map(Row::render).collect()), dump_rel(2, self.p.r2.iter().map(Row::render).collect()), dump_rel(3, self.p.r3.iter().map(Row::render).collect()), dump_rel(4, self.p.r4.iter().map(Row::render).collect()), dump_rel(5, self.p.r5.iter().map(Row::render).collect()), dump_rel(6, self.p.r6.iter().map(Row::render).collect()), dump_rel(7, self.p.r7.iter().map(Row::render).collect())].join(" | ") }
       fn iters(&self) -> String { format!("iters {}", self.p.scc_iters.iter().map(|x| x.to_string()).collect::<Vec<_>>().join(" ")) }
    }
 }
@@ -120,17 +144,17 @@ pub mod h10x {
       relation r2(i64);
       relation r3(i64, i64, i64);
       relation r4(i64, i64);
-      relation r5(i64);
+      relation r5(i64, Option<i64>);
       relation r6(i64, i64);
-      relation r7(i64);
-      relation r8(i64, i64, i64);
-      r6(v1, v0) <-- r0(v0, v1), r4(v101, v100) if (v101.clone() == v1.clone()), r5(v102) if (v102.clone() == v100.clone());
-      r6(v0, v0) <-- r2(v104), r4(v0, v103), r5(v105) if (v105.clone() == v103.clone());
-      r6(v0, v0) <-- r2(v106), r4(v2, v0) if (v2.clone() == 1);
-      r6(std::cmp::min(std::cmp::min(v0.clone(), 1), 6), 1) <-- r1(v0, v113) if (v113.clone() == Some(v0.clone())), r4(v1, v114) if (v114.clone() == v0.clone()), if (v1.clone() < 1), r3(v107, v115, v116) if (v115.clone() == 0) if (v116.clone() == (v107.clone() + v0.clone())), r4(v108, v109), r5(v117) if (v117.clone() == v109.clone()), r4(v2, v118) if (v118.clone() == v2.clone()), if (v2.clone() < 1), r3(v110, v119, v120) if (v119.clone() == 0) if (v120.clone() == (v110.clone() + v2.clone())), r4(v111, v112), r5(v121) if (v121.clone() == v112.clone());
-      r6((std::cmp::min(std::cmp::min(v0.clone(), 1), 6) + 0), v1) <-- r1(v0, v113) if (v113.clone() == Some(v0.clone())), r4(v1, v114) if (v114.clone() == v0.clone()), if (v1.clone() < 1), r3(v107, v115, v116) if (v115.clone() == 0) if (v116.clone() == (v107.clone() + v0.clone())), r4(v108, v109), r5(v117) if (v117.clone() == v109.clone()), r4(v2, v118) if (v118.clone() == v2.clone()), if (v2.clone() < 1), r3(v110, v119, v120) if (v119.clone() == 0) if (v120.clone() == (v110.clone() + v2.clone())), r4(v111, v112), r5(v121) if (v121.clone() == v112.clone());
-      r6(v1, (std::cmp::min(std::cmp::min(v0.clone(), 1), 6) + 0)) <-- r1(v0, v113) if (v113.clone() == Some(v0.clone())), r4(v1, v114) if (v114.clone() == v0.clone()), if (v1.clone() < 1), r3(v107, v115, v116) if (v115.clone() == 0) if (v116.clone() == (v107.clone() + v0.clone())), r4(v108, v109), r5(v117) if (v117.clone() == v109.clone()), r4(v2, v118) if (v118.clone() == v2.clone()), if (v2.clone() < 1), r3(v110, v119, v120) if (v119.clone() == 0) if (v120.clone() == (v110.clone() + v2.clone())), r4(v111, v112), r5(v121) if (v121.clone() == v112.clone());
-      r5(v0) <-- r4(v122, v0) if (v122.clone() == 0);
+      relation r7(i64, i64);
+      r6(1, std::cmp::min(std::cmp::max(v1.clone(), 0), 6)) <-- r0(v0, v103) if (v103.clone() == std::cmp::max(v0.clone(), 2)), r4(v104, v1), if (v1.clone() == 5), agg () = not() in r0(v0.clone(), v0.clone()), r1(v105, v106) if (v105.clone() == v0.clone()) if let Some(v100) = v106.clone(), if (v100.clone() == 1), agg () = not() in r4(std::cmp::max(v0.clone(), 2), std::cmp::max(v100.clone(), 2)), if (std::cmp::min(v1.clone(), 3) < v100.clone());
+      r6(1, std::cmp::min(std::cmp::max(v1.clone(), 0), 6)) <-- r0(v0, v107) if (v107.clone() == std::cmp::max(v0.clone(), 2)), r4(v108, v1), if (v1.clone() == 5), agg () = not() in r0(v0.clone(), v0.clone()), r5(v109, v110) if (v109.clone() == v0.clone()) if let Some(v100) = v110.clone(), if (std::cmp::min(v1.clone(), 3) < v100.clone());
+      r6(1, std::cmp::min(std::cmp::max(v1.clone(), 0), 6)) <-- r0(v0, v111) if (v111.clone() == std::cmp::max(v0.clone(), 2)), r4(v112, v1), if (v1.clone() == 5), agg () = not() in r0(v0.clone(), v0.clone()), r5(v113, v114) if (v113.clone() == v0.clone()) if let Some(v100) = v114.clone(), r4(v115, v101) if (v115.clone() == v100.clone()), if (std::cmp::min(v1.clone(), 3) < v100.clone());
+      r6(1, std::cmp::min(std::cmp::max(v1.clone(), 0), 6)) <-- r0(v0, v116) if (v116.clone() == std::cmp::max(v0.clone(), 2)), r4(v117, v1), if (v1.clone() == 5), agg () = not() in r0(v0.clone(), v0.clone()), r5(v118, v119) if (v118.clone() == v0.clone()) if let Some(v100) = v119.clone(), r2(v101), if (v100.clone() < 4), let v102 = std::cmp::min((v100.clone() + 0), 6), if (std::cmp::min(v1.clone(), 3) < v100.clone());
+      r6(v0, v1) <-- r6(v0, v121) if (v121.clone() == 1), r1(v1, v122), r3(v120, v123, v124) if (v123.clone() == v120.clone()) if (v124.clone() == (std::cmp::max(v0.clone(), 1) + 1)), if (v120.clone() <= 2), if (std::cmp::max(v0.clone(), 1) != 4);
+      r6(v0, v1) <-- r6(v0, v125) if (v125.clone() == 1), r2(v1);
+      r6(v2, v2) <-- r0(v0, v1), r1(v128, v129) if (v128.clone() == v0.clone()), r3(v126, v130, v131) if (v130.clone() == v126.clone()) if (v131.clone() == (std::cmp::min(v1.clone(), 4) + 1)), if (v126.clone() <= 2), if (std::cmp::min(v1.clone(), 4) != 4), r1(v2, v132), r3(v127, v133, v134) if (v133.clone() == v127.clone()) if (v134.clone() == ((v0.clone() + v1.clone()) + 1)), if (v127.clone() <= 2), if ((v0.clone() + v1.clone()) != 4);
+      r5((v1.clone() + 1), Some(v0.clone())) <-- r0(v0, v1), if (v1.clone() < 5);
    }
    pub struct Inst { p: Prog, pool: Option<ascent::rayon::ThreadPool> }
    pub fn make(pool: Option<usize>) -> Box<dyn Driver> {
@@ -146,10 +170,9 @@ pub mod h10x {
          2 => { let v: Vec<(i64,)> = parse_rows(rows)?; if append { self.p.r2.extend(v) } else { self.p.r2 = v } },
          3 => { let v: Vec<(i64,i64,i64,)> = parse_rows(rows)?; if append { self.p.r3.extend(v) } else { self.p.r3 = v } },
          4 => { let v: Vec<(i64,i64,)> = parse_rows(rows)?; if append { self.p.r4.extend(v) } else { self.p.r4 = v } },
-         5 => { let v: Vec<(i64,)> = parse_rows(rows)?; if append { self.p.r5.extend(v) } else { self.p.r5 = v } },
+         5 => { let v: Vec<(i64,Option<i64>,)> = parse_rows(rows)?; if append { self.p.r5.extend(v) } else { self.p.r5 = v } },
          6 => { let v: Vec<(i64,i64,)> = parse_rows(rows)?; if append { self.p.r6.extend(v) } else { self.p.r6 = v } },
-         7 => { let v: Vec<(i64,)> = parse_rows(rows)?; if append { self.p.r7.extend(v) } else { self.p.r7 = v } },
-         8 => { let v: Vec<(i64,i64,i64,)> = parse_rows(rows)?; if append { self.p.r8.extend(v) } else { self.p.r8 = v } },
+         7 => { let v: Vec<(i64,i64,)> = parse_rows(rows)?; if append { self.p.r7.extend(v) } else { self.p.r7 = v } },
             _ => return None,
          }
          Some(())
@@ -157,13 +180,13 @@ pub mod h10x {
       fn run(&mut self) { match &self.pool { Some(pl) => { let p = &mut self.p; pl.install(|| p.run()) }, None => self.p.run() } }
       fn run_here(&mut self) { self.p.run() }
       fn run_timeout(&mut self, k: usize) -> Option<bool> { let _ = k; None }
-      fn dump(&self) -> String { vec![dump_rel(0, self.p.r0.iter().map(Row::render).collect()), dump_rel(1, self.p.r1.iter().map(Row::render).collect()), dump_rel(2, self.p.r2.iter().map(Row::render).collect()), dump_rel(3, self.p.r3.iter().map(Row::render).collect()), dump_rel(4, self.p.r4.iter().map(Row::render).collect()), dump_rel(5, self.p.r5.iter().map(Row::render).collect()), dump_rel(6, self.p.r6.iter().map(Row::render).collect()), dump_rel(7, self.p.r7.iter().map(Row::render).collect()), dump_rel(8, self.p.r8.iter().map(Row::render).collect())].join(" | ") }
+      fn dump(&self) -> String { vec![dump_rel(0, self.p.r0.iter().map(Row::render).collect()), dump_rel(1, self.p.r1.iter().map(Row::render).collect()), dump_rel(2, self.p.r2.iter().map(Row::render).collect()), dump_rel(3, self.p.r3.iter().map(Row::render).collect()), dump_rel(4, self.p.r4.iter().map(Row::render).collect()), dump_rel(5, self.p.r5.iter().map(Row::render).collect()), dump_rel(6, self.p.r6.iter().map(Row::render).collect()), dump_rel(7, self.p.r7.iter().map(Row::render).collect())].join(" | ") }
       fn iters(&self) -> String { format!("iters {}", self.p.scc_iters.iter().map(|x| x.to_string()).collect::<Vec<_>>().join(" ")) }
    }
 }
 
 #[allow(unused, non_snake_case, clippy::all)]
-pub mod a2x {
+pub mod a0x {
    use ascent::*;
    use ascent::aggregators::*;
    use ascent::lattice::{Dual, set::Set};
@@ -174,7 +197,7 @@ pub mod a2x {
       relation r1(i64);
       relation r2(i64, i64);
       relation r3(i64);
-      r2(v0, v1) <-- r1(v0), r0(v100, v1), if (0 < v100.clone());
+      r2(v0, v1) <-- r1(v0), r0(v100, v1) if (3 < v100.clone());
       r3(v0) <-- r2(v0, v101);
    }
    pub struct Inst { p: Prog, pool: Option<ascent::rayon::ThreadPool> }
@@ -203,7 +226,7 @@ pub mod a2x {
 }
 
 #[allow(unused, non_snake_case, clippy::all)]
-pub mod e2x {
+pub mod e0x {
    use ascent::*;
    use ascent::aggregators::*;
    use ascent::lattice::{Dual, set::Set};
@@ -214,7 +237,7 @@ pub mod e2x {
       relation r1(i64);
       relation r2(i64, i64);
       relation r3(i64);
-      r2(v0, v1) <-- r1(v0), r0(v100, v1), if ((v0.clone() + 2) < 2);
+      r2(v0, v1) <-- r1(v0), r0(v100, v1), if ((v100.clone() * (v0.clone() + 2)) < 5);
       r3(v0) <-- r2(v0, v101);
    }
    pub struct Inst { p: Prog, pool: Option<ascent::rayon::ThreadPool> }
@@ -243,7 +266,47 @@ pub mod e2x {
 }
 
 #[allow(unused, non_snake_case, clippy::all)]
-pub mod o1x {
+pub mod e4x {
+   use ascent::*;
+   use ascent::aggregators::*;
+   use ascent::lattice::{Dual, set::Set};
+   use crate::common::*;
+   ascent! {
+      pub struct Prog;
+      relation r0(i64, i64);
+      relation r1(i64);
+      relation r2(i64, i64);
+      relation r3(i64);
+      r2(v0, v1) <-- r1(v0), r0(v100, v1), if (((v0.clone() + 1) * v100.clone()) < 7);
+      r3(v0) <-- r2(v0, v101);
+   }
+   pub struct Inst { p: Prog, pool: Option<ascent::rayon::ThreadPool> }
+   pub fn make(pool: Option<usize>) -> Box<dyn Driver> {
+      let pool = pool.map(|n| ascent::rayon::ThreadPoolBuilder::new().num_threads(n).build().unwrap());
+      let p = match &pool { Some(pl) => pl.install(|| Default::default()), None => Default::default() };
+      Box::new(Inst { p, pool })
+   }
+   impl Driver for Inst {
+      fn load(&mut self, rel: usize, rows: &[Sexp], append: bool) -> Option<()> {
+         match rel {
+         0 => { let v: Vec<(i64,i64,)> = parse_rows(rows)?; if append { self.p.r0.extend(v) } else { self.p.r0 = v } },
+         1 => { let v: Vec<(i64,)> = parse_rows(rows)?; if append { self.p.r1.extend(v) } else { self.p.r1 = v } },
+         2 => { let v: Vec<(i64,i64,)> = parse_rows(rows)?; if append { self.p.r2.extend(v) } else { self.p.r2 = v } },
+         3 => { let v: Vec<(i64,)> = parse_rows(rows)?; if append { self.p.r3.extend(v) } else { self.p.r3 = v } },
+            _ => return None,
+         }
+         Some(())
+      }
+      fn run(&mut self) { match &self.pool { Some(pl) => { let p = &mut self.p; pl.install(|| p.run()) }, None => self.p.run() } }
+      fn run_here(&mut self) { self.p.run() }
+      fn run_timeout(&mut self, k: usize) -> Option<bool> { let _ = k; None }
+      fn dump(&self) -> String { vec![dump_rel(0, self.p.r0.iter().map(Row::render).collect()), dump_rel(1, self.p.r1.iter().map(Row::render).collect()), dump_rel(2, self.p.r2.iter().map(Row::render).collect()), dump_rel(3, self.p.r3.iter().map(Row::render).collect())].join(" | ") }
+      fn iters(&self) -> String { format!("iters {}", self.p.scc_iters.iter().map(|x| x.to_string()).collect::<Vec<_>>().join(" ")) }
+   }
+}
+
+#[allow(unused, non_snake_case, clippy::all)]
+pub mod o3x {
    use ascent::*;
    use ascent::aggregators::*;
    use ascent::lattice::{Dual, set::Set};
@@ -283,5 +346,5 @@ pub mod o1x {
 }
 
 fn main() {
-   common::main_loop(&[("h2x", h2x::make as common::Factory), ("h6x", h6x::make as common::Factory), ("h10x", h10x::make as common::Factory), ("a2x", a2x::make as common::Factory), ("e2x", e2x::make as common::Factory), ("o1x", o1x::make as common::Factory)]);
+   common::main_loop(&[("h2x", h2x::make as common::Factory), ("h6x", h6x::make as common::Factory), ("h10x", h10x::make as common::Factory), ("a0x", a0x::make as common::Factory), ("e0x", e0x::make as common::Factory), ("e4x", e4x::make as common::Factory), ("o3x", o3x::make as common::Factory)]);
 }
